@@ -71,3 +71,94 @@ def sane_grid(tier='quick', seed=0):
                         'bound': f'{len(acts)} activators x {len(terms)} terminators x 5 patterns x {len(behs)} behaviours x {len(trigs)} triggers',
                         'cases': cases, 'distinct': cases, 'exhaustive': tier == 'thorough', 'accepted': distinct_accept},
             'samples': [{'scope': 'after a as A', 'pattern': 'b {@A.v = 1} causes c', 'sane': True}]}
+
+
+def quantifier_hygiene(tier='quick', seed=0):
+    """C02 (iv), bounded: a quantifier is accepted iff its variable is used in the body, not used in its
+    own domain and not re-bound inside - over quantifier texts built from a small alphabet"""
+    from hpl.parser import expression_parser
+    from hpl.errors import HplSanityError
+    import itertools
+    ep = expression_parser()
+    doms = ['xs', '{1, 2}', '[1 to 3]', '{@i, 2}', '[@i to 3]', 'ys[@i]', '{@j}']
+    bodies = ['@i > 0', 'x > 0', '@j > 0', '(@i > 0 and x > 1)', '(forall i in ys: @i > 0)', '(exists j in ys: @j > @i)',
+              '(forall j in ys: x > 0)', '(forall j in {@i}: @j > 0)', '(exists i in ys: @i = 1) or @i = 2']
+    cases = 0
+    violations = []
+    for q, d, b in itertools.product(['forall', 'exists'], doms, bodies):
+        text = f'{q} i in {d}: {b}'
+        uses = '@i' in b.replace('(forall i in ys: @i > 0)', '').replace('(exists i in ys: @i = 1)', '')
+        in_dom = '@i' in d
+        rebinds = 'forall i' in b or 'exists i' in b
+        inner_ok = True
+        if 'forall j in ys: x > 0' in b:
+            inner_ok = False      # inner quantifier never uses j
+        if '{@j}' == d or ('@j' in b and 'j in' not in b):
+            pass                  # free @j is a reference to an outer name: allowed at expression level
+        expect = uses and not in_dom and not rebinds and inner_ok
+        cases += 1
+        try:
+            ep.parse(text)
+            got = True
+        except HplSanityError:
+            got = False
+        except Exception:
+            continue
+        if got != expect and len(violations) < 5:
+            violations.append({'witness': text, 'what': f'quantifier `{text}` accepted={got}, expected={expect}'})
+    return {'obligations_n': 0, 'discharged_n': 0, 'violations': violations, 'faults': [],
+            'bounded': {'what': 'quantifier hygiene (variable used in body, absent from domain, not re-bound)',
+                        'bound': f'2 quantifiers x {len(doms)} domains x {len(bodies)} bodies', 'cases': cases,
+                        'distinct': cases, 'exhaustive': True},
+            'samples': [{'text': 'forall i in {@i, 2}: @i > 0', 'expected': 'rejected'}]}
+
+
+def channel_grid(tier='quick', seed=0):
+    """C02 (iii), bounded: HplEventDisjunction construction is rejected iff a channel repeats - every nesting
+    shape of 2..4 simple events over a 3-channel alphabet, through the API and through the parser"""
+    import itertools
+    from hpl.ast.events import HplSimpleEvent, HplEventDisjunction
+    from hpl.errors import HplSanityError
+    from hpl.parser import property_parser
+    pp = property_parser()
+    cases = 0
+    violations = []
+
+    def shapes(leaves):
+        if len(leaves) == 1:
+            yield leaves[0]
+            return
+        for k in range(1, len(leaves)):
+            for l in shapes(leaves[:k]):
+                for r in shapes(leaves[k:]):
+                    yield (l, r)
+
+    def build(t):
+        if isinstance(t, str):
+            return HplSimpleEvent.publish(t)
+        return HplEventDisjunction(build(t[0]), build(t[1]))
+    for n in (2, 3, 4):
+        for names in itertools.product('abc', repeat=n):
+            expect = len(set(names)) == n
+            for shape in shapes(list(names)):
+                cases += 1
+                try:
+                    build(shape)
+                    got = True
+                except HplSanityError:
+                    got = False
+                if got != expect and len(violations) < 5:
+                    violations.append({'witness': f'disjunction{shape}', 'what': f'disjunction {shape} accepted={got} but channels distinct={expect}'})
+            text = 'globally: no (' + ' or '.join(names) + ')'
+            cases += 1
+            try:
+                pp.parse(text)
+                got = True
+            except HplSanityError:
+                got = False
+            if got != expect and len(violations) < 5:
+                violations.append({'witness': text, 'what': f'`{text}` accepted={got} but channels distinct={expect}'})
+    return {'obligations_n': 0, 'discharged_n': 0, 'violations': violations, 'faults': [],
+            'bounded': {'what': 'duplicate-channel rejection over all nesting shapes', 'bound': '2..4 events, 3 channels, all binary nestings + parser',
+                        'cases': cases, 'distinct': cases, 'exhaustive': True},
+            'samples': [{'text': 'globally: no (a or b or a)', 'expected': 'rejected'}]}
